@@ -715,6 +715,41 @@ func (e *Exec) fmtArg(s *State, v Value, depth int) Value {
 	return v
 }
 
+// concreteFmtArg converts a concrete engine value into a host value fmt can print.
+func concreteFmtArg(v Value) (interface{}, bool) {
+	iv, ok := v.(IfaceV)
+	if !ok || iv.T == nil {
+		return nil, false
+	}
+	switch x := iv.V.(type) {
+	case StrV:
+		if x.Sym == nil {
+			if b, ok := under(iv.T).(*types.Basic); ok && b.Info()&types.IsString != 0 {
+				return x.C, true
+			}
+		}
+	case *Term:
+		if !x.IsConst() {
+			return nil, false
+		}
+		if _, isNamed := iv.T.(*types.Named); isNamed {
+			return nil, false // may have a String method
+		}
+		w, signed, ok := intWidth(iv.T)
+		if !ok {
+			return nil, false
+		}
+		if w == 0 {
+			return x.Val == 1, true
+		}
+		if signed {
+			return x.Signed(), true
+		}
+		return x.Val, true
+	}
+	return nil, false
+}
+
 func inSprintf(e *Exec, s *State, f *Frame, fn *ssa.Function, args []Value, result ssa.Value) (stepResult, bool) {
 	format := args[0].(StrV)
 	vs := e.variadic(s, args[1])
@@ -726,6 +761,21 @@ func inSprintf(e *Exec, s *State, f *Frame, fn *ssa.Function, args []Value, resu
 			if sv, ok := iv.V.(StrV); ok {
 				return e.ret(f, result, sv)
 			}
+		}
+	}
+	if format.Sym == nil && !strings.Contains(format.C, "%w") && !strings.Contains(format.C, "%T") && !strings.Contains(format.C, "%p") {
+		host := make([]interface{}, len(vs))
+		all := true
+		for i, v := range vs {
+			hv, ok := concreteFmtArg(v)
+			if !ok {
+				all = false
+				break
+			}
+			host[i] = hv
+		}
+		if all {
+			return e.ret(f, result, StrV{C: fmt.Sprintf(format.C, host...)})
 		}
 	}
 	k := "fmt:"
